@@ -144,10 +144,16 @@ def main():
     elif a[0] == "runall":
         tier = a[a.index("--tier") + 1] if "--tier" in a else "quick"
         out = {}
+        targets = json.load(open(os.path.join(VERIF, "tools", "seed_targets.json")))
+        only = a[a.index("--only") + 1] if "--only" in a else None
         for name in sorted(os.listdir(os.path.join(VERIF, "seeded"))):
+            if only and only not in name:
+                continue
             if os.path.exists(os.path.join(VERIF, "seeded", name, "meta.json")):
-                out[name] = run(name, None, tier)
-        print(json.dumps(out, indent=1))
+                out[name] = run(name, targets.get(name), tier)
+        json.dump(out, open(os.path.join(VERIF, "seeded", f"RESULTS-{tier}.json"), "w"), indent=1, sort_keys=True)
+        missed = {k: v for k, v in out.items() if "caught" not in v.values()}
+        print(f"{len(out) - len(missed)}/{len(out)} seeded changes caught; not caught: {sorted(missed)}")
 
 
 if __name__ == "__main__":
